@@ -16,7 +16,7 @@ PID = "C18"
 SIGMA = [" ", "\t", "\n", "\r", "a", "b", "A", "1", ",", "|", ".", "*", "+",
          "(", "[", "\\", "'", '"', "{", "€"]
 SUBS = [["a", "b", ","], ["a", ".", "|"], ["a", "'", "\\"],
-        ["a", " ", "\t"]]
+        ["a", " ", "\t"], ["a", "\n", " "]]
 
 PRELUDE = "require String; require List;"
 FORMS = {
@@ -496,7 +496,7 @@ def main(tier, seed):
     for sub in SUBS:
         ys = strings_over(sub, 3 if tier == "quick" else 4)
         parts = strings_over(sub, 2)
-        lists = [list(t) for n in range(0, 3)
+        lists = [list(t) for n in range(0, 4)
                  for t in itertools.product(strings_over(sub, 1) + ["ab"],
                                             repeat=n)]
         seps = SIGMA + [",,", "ab", "a,", "|.", "\\'", " \t"]
